@@ -284,6 +284,48 @@ pub fn write_plain(out: &mut Vec<u8>, bv: &PlainBv, keep: bool) {
     }
 }
 
+/// Writes a decoded bitvector back, keeping only the support structures selected by `mask`
+/// (bit 0 rank, bit 1 select, bit 2 select_zero) - every subset is an admissible file.
+pub fn write_plain_masked(out: &mut Vec<u8>, bv: &PlainBv, mask: u8) {
+    put_element(out, bv.ones);
+    write_raw(out, &bv.raw);
+    write_optional(out, if mask & 1 != 0 { bv.rank.as_deref() } else { None });
+    write_optional(out, if mask & 2 != 0 { bv.select.as_deref() } else { None });
+    write_optional(out, if mask & 4 != 0 { bv.select_zero.as_deref() } else { None });
+}
+
+/// Rewrites a (library-written) sparse bitvector file so that its bucket bitvector keeps only the
+/// support structures in `mask`. Everything else is copied element by element.
+pub fn rewrite_sparse_supports(file: &[u8], mask: u8) -> Res<Vec<u8>> {
+    let mut r = Reader::new(file);
+    let mut problems = Vec::new();
+    let len = r.element()?;
+    let high = read_plain(&mut r, &mut problems)?;
+    let rest = &file[r.pos..];
+    let mut out = Vec::new();
+    put_element(&mut out, len);
+    write_plain_masked(&mut out, &high, mask);
+    out.extend_from_slice(rest);
+    Ok(out)
+}
+
+/// Rewrites a (library-written) plain wavelet matrix file so that level `i` keeps the supports in `masks[i % masks.len()]`.
+pub fn rewrite_wm_supports(file: &[u8], masks: &[u8]) -> Res<Vec<u8>> {
+    let mut r = Reader::new(file);
+    let mut problems = Vec::new();
+    let len = r.element()?;
+    let (width, levels) = read_wm_core(&mut r, &mut problems)?;
+    let rest = &file[r.pos..];
+    let mut out = Vec::new();
+    put_element(&mut out, len);
+    put_element(&mut out, width);
+    for (i, l) in levels.iter().enumerate() {
+        write_plain_masked(&mut out, l, masks[i % masks.len()]);
+    }
+    out.extend_from_slice(rest);
+    Ok(out)
+}
+
 //-----------------------------------------------------------------------------
 // Sparse bitvector
 
